@@ -14,7 +14,7 @@ from .values import sig
 from .driver import make_exc
 
 ASYNC_FLAVOURS = ("agen", "aclass", "aclass_noclose", "aplain", "agenlike", "aeager", "aeagerstop", "aproxy", "areiter", "alateclose")
-SYNC_FLAVOURS = ("list", "seq", "iter", "tuple", "tuplesub", "reiter", "sgen")
+SYNC_FLAVOURS = ("list", "seq", "iter", "tuple", "tuplesub", "reiter", "sgen", "ringlist")
 SRC_FLAVOURS = ASYNC_FLAVOURS + SYNC_FLAVOURS
 FN_FLAVOURS = ("def", "async", "partial", "obj", "objaw", "falsyobj", "eqobj", "unhashobj", "aeqobj", "gencoro", "classaw", "defcoro")
 
@@ -183,6 +183,30 @@ class ListSource(SourceBase):
 
 class MyTuple(tuple):
     """a tuple subclass (like a namedtuple): tuple(x) must give a PLAIN tuple"""
+
+
+class RingList(list):
+    """a list subclass whose LOGICAL order differs from its raw storage (a ring buffer with a head offset):
+    only ``__iter__`` (and indexing) know the order; ``list.copy`` / raw storage access see the rotated data"""
+
+    def __init__(self, items):
+        items = list(items)
+        self.head = len(items) // 2
+        super().__init__(items[len(items) - self.head:] + items[:len(items) - self.head])
+
+    def __iter__(self):
+        raw = list.__iter__(self)
+        data = list(raw)
+        return iter(data[self.head:] + data[:self.head])
+
+    def __getitem__(self, index):
+        return list(self)[index]
+
+
+class RingListSource(ListSource):
+    def __init__(self, ctx, name, items, spec=None):
+        super().__init__(ctx, name, items, spec)
+        self._obj = RingList(items)
 
 
 class TupleSource(ListSource):
@@ -521,6 +545,7 @@ _SRC_CLASSES = {
     "reiter": ReiterSource,
     "list": ListSource,
     "tuple": TupleSource,
+    "ringlist": RingListSource,
     "tuplesub": TupleSubSource,
     "seq": SeqSource,
     "sgen": SyncGenSource,
@@ -534,7 +559,7 @@ def make_source(ctx, name, items, spec, side):
     if side == "s":
         if (spec or {}).get("fl") == "list" and (spec or {}).get("mutable"):
             return ListSource(ctx, name, items, spec)  # the consumer mutates this very list while iterating
-        if (spec or {}).get("fl") in ("tuple", "tuplesub") and not (spec or {}).get("fault"):
+        if (spec or {}).get("fl") in ("tuple", "tuplesub", "ringlist") and not (spec or {}).get("fault"):
             # what the stdlib does with a tuple (subclass) argument depends on its type
             return _SRC_CLASSES[spec["fl"]](ctx, name, items, spec)
         if (spec or {}).get("fl") in ("areiter", "reiter"):
